@@ -176,6 +176,7 @@ type Report struct {
 	NDisagree     int            `json:"n_disagreements"`
 	NOracleFail   int            `json:"n_oracle_fails"`
 	FailsBySite   map[string]int `json:"fails_by_site"`
+	keptByClass   map[string]int
 	Notes         []string       `json:"notes,omitempty"`
 	mu            sync.Mutex
 }
@@ -198,8 +199,19 @@ func (r *Report) addFail(f OracleFail) {
 	}
 	// keep up to maxKeep examples per site ("" = not attributed to a known class),
 	// so that known findings can never crowd out a fresh violation
-	if r.FailsBySite[f.Site] < maxKeep {
+	// ... and per (site, stream, property tag of the message): the failures of one oracle
+	// (say, well-formedness, tagged C01) must not crowd out those of another (C05's extents)
+	tag := ""
+	if len(f.What) > 4 && f.What[0] == 'C' && f.What[3] == ':' {
+		tag = f.What[:3]
+	}
+	if r.keptByClass == nil {
+		r.keptByClass = map[string]int{}
+	}
+	key := f.Site + "|" + f.Stream + "|" + tag
+	if r.keptByClass[key] < maxKeep {
 		r.OracleFails = append(r.OracleFails, f)
+		r.keptByClass[key]++
 	}
 	r.FailsBySite[f.Site]++
 	r.mu.Unlock()
